@@ -78,6 +78,7 @@ def run(ctx):
             # the same behaviours with callbacks that are still running while later ticks fire
             ctx.replay(PKG, OVERLAY, "^TestVerifC10$", path, label=name + "-slowcb", env=dict(VERIF_SLOTS=n, VERIF_GATED=1),
                        shards=16, binp=binp)
+    bulk(ctx, binp)
     for name, n, kw, num, depth in sims:
         cases = gen(ctx, name, n, simulate=num, depth=depth, **kw)
         path, cnt = ctx.write_cases(name + ".ndjson", cases)
@@ -85,8 +86,37 @@ def run(ctx):
         ctx.replay(PKG, OVERLAY, "^TestVerifC10$", path, label=name, env=dict(VERIF_SLOTS=n), shards=16, binp=binp)
 
 
+def bulk(ctx, binp):
+    """Behaviours that take the wheel's key index (a SafeMap, which re-organises itself after
+    10 000 deletions) across its thresholds: blocks of 250 timers handled together."""
+    n, mult, nb = 5, 250, 60
+
+    def o(**kw):
+        return "[" + ", ".join('%s |-> %s' % (k, ('"%s"' % v) if isinstance(v, str) else v) for k, v in kw.items()) + "]"
+    open1 = [o(op="setr", lo=1, hi=a, v=1, d=40) for a in ((48, 56) if ctx.quick else (44, 48, 52, 56))]
+    open2 = [o(op="remover", lo=1, hi=b) for b in ((40, 41) if ctx.quick else (39, 40, 41, 44))]
+    menu = [o(op="setr", lo=57, hi=58, v=2, d=30), o(op="remover", lo=41, hi=47), o(op="mover", lo=45, hi=58, d=20),
+            o(op="remover", lo=57, hi=57), o(op="setr", lo=1, hi=2, v=3, d=10), o(op="ticks", n=1)]
+    if not ctx.quick:
+        menu += [o(op="remover", lo=42, hi=54), o(op="setr", lo=59, hi=60, v=1, d=25)]
+    K = dict(Keys="1..%d" % nb, Vals="{1,2,3}", MaxD=60, NB=nb, Menu="{" + ", ".join(menu) + "}",
+             Open1="{" + ", ".join(open1) + "}", Open2="{" + ", ".join(open2) + "}", Steps=3 if ctx.quick else 4,
+             TailTicks=n + 1)
+    cfg = core.render_cfg(spec="BSpec", constants=K, invariants=["EmitB"])
+    r = ctx.tlc("WheelBulkGen", cfg, constants=K, name="bulk", timeout=1200)
+    path, cnt = ctx.write_cases("bulk.ndjson", r.printed)
+    ctx.samples += core.sample_of(r.printed, 1)
+    ctx.replay(PKG, OVERLAY, "^TestVerifC10$", path, label="bulk", env=dict(VERIF_SLOTS=n, VERIF_BULK=mult), shards=16,
+               binp=binp, timeout=1500)
+
+
 def replay(ctx, rp):
     import json
     path, _ = ctx.write_cases("replay.ndjson", [rp["case"]])
     n = int(rp["msg"].split("N=")[1].split()[0]) if "N=" in (rp.get("msg") or "") else 3
-    ctx.replay(PKG, OVERLAY, "^TestVerifC10$", path, label="replay", env=dict(VERIF_SLOTS=n))
+    env = dict(VERIF_SLOTS=n)
+    if (rp.get("key") or "").startswith("C10:bulk"):
+        env["VERIF_BULK"] = 250
+    if (rp.get("key") or "").startswith("C10:slow-callbacks"):
+        env["VERIF_GATED"] = 1
+    ctx.replay(PKG, OVERLAY, "^TestVerifC10$", path, label="replay", env=env)
